@@ -56,14 +56,18 @@ def render_class(name, c, names):
             L.append("  %s a%d[2];" % (names[j], j))
         elif r == "staticmember":
             L.append("  static %s s%d;" % (names[j], j))
+    # spellings of the virtual function, the same style for all classes of one program
+    style = int(name[1:name.index("_")]) % 3
+    par, opar = [("", ""), ("int x", "const int x"), ("", "")][style]
+    osfx = ["override", "override", "noexcept override"][style]
     if c["vf"] == "virt":
-        L.append("  virtual void f();")
+        L.append("  virtual void f(%s);" % par)
     elif c["vf"] == "pure":
-        L.append("  virtual void f() = 0;")
+        L.append("  virtual void f(%s) = 0;" % par)
     elif c["vf"] == "over":
-        L.append("  void f() override;")
+        L.append("  void f(%s) %s;" % (opar, osfx))
     elif c["vf"] == "overc":
-        L.append("  void f() const;")      # an overload: does not override void f()
+        L.append("  void f(%s) const;" % par)      # an overload: does not override void f()
     L.append("};")
     return "\n".join(L)
 
